@@ -2037,6 +2037,8 @@ mod comp {
                 Ex::GraceSpill { p, budget } => {
                     let dir: PathBuf = spill_root.join(format!("q{}", qid));
                     let _ = std::fs::remove_dir_all(&dir);
+                    // self-test of the monitor (never set in normal runs): run LEFT as INNER in the spilling executor
+                    let kind = if kind == JoinKind::Left && std::env::var("C17_SELFTEST_BREAK").map(|v| v == "grace_spill_left_as_inner").unwrap_or(false) { JoinKind::Inner } else { kind };
                     let st = builder.build_grace_hash_join(left, right, lk, rk, *p, jt(kind), nl, nr, Some(dir.clone()), *budget, qid);
                     let mut dx = DynamicExecutor::GraceHashJoin(Box::new(st));
                     let r = drain(&mut dx, Some(&dir));
@@ -2220,6 +2222,35 @@ mod comp {
     }
 }
 
+/// what kind of rows are missing / extra relative to `want` (left width `nl`): the stable part of a component signature
+fn symptoms(got: &[Row], want: &[Row], nl: usize) -> Vec<String> {
+    use std::collections::HashMap;
+    let mut cnt: HashMap<String, (i64, Row)> = HashMap::new();
+    for r in want {
+        cnt.entry(row_key(r, true)).or_insert((0, r.clone())).0 += 1;
+    }
+    for r in got {
+        cnt.entry(row_key(r, true)).or_insert((0, r.clone())).0 -= 1;
+    }
+    let mut out = BTreeSet::new();
+    for (_, (c, r)) in cnt {
+        if c == 0 {
+            continue;
+        }
+        let shape = if r.len() < nl {
+            "short_row"
+        } else if r[..nl].iter().all(|v| v.is_null()) && !r[nl..].iter().all(|v| v.is_null()) {
+            "unmatched_right_row"
+        } else if r[nl..].iter().all(|v| v.is_null()) {
+            "unmatched_left_row"
+        } else {
+            "matched_row"
+        };
+        out.insert(format!("{}_{}", if c > 0 { "missing" } else { "extra" }, shape));
+    }
+    out.into_iter().collect()
+}
+
 fn outcome_tag(r: &Result<(Vec<Row>, usize), String>, want: &[Row]) -> Option<(String, String)> {
     match r {
         Ok((rows, _)) => {
@@ -2317,7 +2348,7 @@ fn run_component_level(ctx: &mut Ctx, a: &Args, scratch: &Scratch, deadline_s: f
                 if !want.is_empty() || fail.is_some() {
                     ctx.nontrivial(fnv(format!("{}/{}/{:?}/{}", class, kind_name(kind), ex, ih).as_bytes()));
                 }
-                if ctx.samples.len() < 6 && spill_files > 0 && fail.is_none() && !want.is_empty() {
+                if ctx.samples.len() < 3 && spill_files > 0 && fail.is_none() && !want.is_empty() && inp.l.len() <= 12 && inp.r.len() <= 12 {
                     ctx.sample(json!({"level": "component", "executor": format!("{:?}", ex), "join": kind_name(kind), "spill_files": spill_files, "result_rows": want.len(), "input": input_json(&inp)}));
                 }
                 if *ex == Ex::Nlj && !*with_extra {
@@ -2342,12 +2373,17 @@ fn run_component_level(ctx: &mut Ctx, a: &Args, scratch: &Scratch, deadline_s: f
                     };
                     let small = shrink_rows(&inp, &mut fails, if matches!(ex, Ex::GraceSpill { .. }) { 120 } else { 400 });
                     let fx = facts(&small, kind);
-                    let sig = format!("C17/component/{}/{}{}/{}/{}", assertion, if cause.is_empty() { String::new() } else { format!("{}/", cause) }, class, kind_name(kind), fx.join("+"));
-                    *sigs.entry(sig.clone()).or_insert(0) += 1;
-                    let first = seen_sigs.insert(sig.clone());
                     qid += 1;
                     let got_small = run_exec(ex, kind, &small, *with_extra, &spill_root, qid);
                     let want_small = expected(&small, kind, *with_extra).unwrap_or_default();
+                    // signature: executor class, join kind and the shape of the wrong rows (data facts stay in the detail)
+                    let sym = match &got_small {
+                        Ok((rows, _)) => symptoms(rows, &want_small, small.lcols.len()).join("+"),
+                        Err(_) => String::new(),
+                    };
+                    let sig = format!("C17/component/{}/{}{}/{}/{}", assertion, if cause.is_empty() { String::new() } else { format!("{}/", cause) }, class, kind_name(kind), sym);
+                    *sigs.entry(sig.clone()).or_insert(0) += 1;
+                    let first = seen_sigs.insert(sig.clone());
                     ctx.violation(
                         &assertion,
                         &sig,
@@ -2356,19 +2392,19 @@ fn run_component_level(ctx: &mut Ctx, a: &Args, scratch: &Scratch, deadline_s: f
                             "join": kind_name(kind),
                             "condition": cond_sql(&small, *with_extra),
                             "minimal_input": input_json(&small),
+                            "minimal_data_facts": fx,
                             "minimal_got": match &got_small { Ok((r, f)) => json!({"rows": rows_json(r, 40), "spill_files": f}), Err(e) => json!({"error": e}) },
                             "minimal_want": rows_json(&want_small, 40),
                             "original_input": if first { input_json(&inp) } else { J::Null },
                             "original_spill_files": spill_files,
                         }),
                     );
-                    continue;
                 }
-                // `algorithm_invariant`: same bag as the nested loop executor on the same equi condition
+                // `algorithm_invariant` (model-free): same bag as the nested loop executor on the same equi condition
                 if !*with_extra && *ex != Ex::Nlj {
                     if let (Some(refrows), Ok((rows, _))) = (&reference, &res) {
                         if !bag_equal(rows, refrows) {
-                            let sig = format!("C17/component/algorithm_invariant/{}_vs_nlj/{}/{}", class, kind_name(kind), facts(&inp, kind).join("+"));
+                            let sig = format!("C17/component/algorithm_invariant/{}_vs_nlj/{}/{}", class, kind_name(kind), symptoms(rows, refrows, inp.lcols.len()).join("+"));
                             *sigs.entry(sig.clone()).or_insert(0) += 1;
                             ctx.violation("algorithm_invariant", &sig, json!({"executor": format!("{:?}", ex), "join": kind_name(kind), "input": input_json(&inp), "diff_vs_nlj": bag_diff(rows, refrows)}));
                         }
@@ -2387,7 +2423,7 @@ pub fn run(a: &Args) -> i32 {
         &a.tier,
         a.seed,
         "exploration",
-        "(a) SQL level: fresh database per case group with 2..4 tables (3..25 rows, optional integer primary key, integer and text join keys from small domains with duplicates and 0/15/30% NULLs, unique payload column, optional DATE/BOOLEAN/TIMESTAMP key stratum, optional secondary indexes on key columns); generated 2..4-way joins (INNER/LEFT/RIGHT/FULL OUTER/CROSS chains or comma joins with WHERE equalities; ON = equality on int/text/pk/special keys, non-equi comparisons, OR, extra conjuncts on one or both sides; WHERE atoms on any side; aliases, unqualified names, SELECT * or qualified columns from all sides, self joins); each query runs under PRAGMA join_memory_budget in {1024, 4096, 65536, 10485760}; `bag` = result bag equals the reference nested-loop evaluator, `budget_invariant` = same outcome and bag under all four budgets; EXPLAIN is recorded per query. Failing queries are shrunk (tables, conjuncts, WHERE atoms, select items, join kinds, aliases; then indexes / NULL keys / duplicate keys removed on fresh databases) and the signature is built from the minimal query. (b) component level: generated left/right inputs (0..40 rows, int/text keys, NULL and duplicate keys, one or two key columns) as MaterializedRowSource into DynamicExecutor::{NestedLoopJoin (equi and equi+non-equi condition), GraceHashJoin in memory (1..16 partitions), GraceHashJoin with spill_dir (budgets 256 B..64 KiB, 1..16 partitions; spill files counted after open()), StreamingHashJoin (build=left; swapped for INNER/FULL)} for INNER/LEFT/RIGHT/FULL; `bag` vs the model's nested-loop definition, `algorithm_invariant` vs the nested loop executor. distinct_nontrivial = distinct (query, data) / (executor, join kind, input) cases with a non-empty expected result or a failure",
+        "(a) SQL level: fresh database per case group with 2..4 tables (3..25 rows, optional integer primary key, integer and text join keys from small domains with duplicates and 0/15/30% NULLs, unique payload column, optional DATE/BOOLEAN/TIMESTAMP key stratum, optional secondary indexes on key columns); generated 2..4-way joins (INNER/LEFT/RIGHT/FULL OUTER/CROSS chains or comma joins with WHERE equalities; ON = equality on int/text/pk/special keys, non-equi comparisons, OR, extra conjuncts on one or both sides; WHERE atoms on any side; aliases, unqualified names, SELECT * or qualified columns from all sides, self joins); each query runs under PRAGMA join_memory_budget in {1024, 4096, 65536, 10485760}; `bag` = result bag equals the reference nested-loop evaluator, `budget_invariant` = same outcome and bag under all four budgets; EXPLAIN is recorded per query. A failing query is first compared with the model under exact emulations of the defects established on the unchanged tree (smallest matching set; each predicts the precise wrong output; signature C17/sql/<assertion>/defect:<name>, one report per defect in the set); otherwise it is shrunk (tables, conjuncts, WHERE atoms, select items, join kinds, aliases, qualification; then secondary indexes / NULLs / duplicates in referenced columns removed on fresh databases, rows deleted for the first witness), emulations are tried again on the minimal case, and what stays unexplained gets a signature built from the minimal query's join kinds, features, plan operators and needed data facts. (b) component level: generated left/right inputs (0..40 rows, int/text keys, NULL and duplicate keys, one or two key columns) as MaterializedRowSource into DynamicExecutor::{NestedLoopJoin (equi and equi+non-equi condition), GraceHashJoin in memory (1..16 partitions), GraceHashJoin with spill_dir (budgets 256 B..64 KiB, 1..16 partitions; spill files counted after open()), StreamingHashJoin (build=left; swapped for INNER/FULL)} for INNER/LEFT/RIGHT/FULL; `bag` vs the model's nested-loop definition (failing inputs are row-minimised; signature = executor class / join kind / shape of the missing or extra rows), `algorithm_invariant` (model-free) = same bag as the NestedLoopJoin executor on the same equality condition. distinct_nontrivial = distinct (query, data) / (executor, join kind, input) cases with a non-empty expected result or a failure",
     );
     let quick = ctx.quick();
     let scratch = Scratch::new("c17");
